@@ -261,7 +261,7 @@ func init() {
 func c14Run(c *Ctx) {
 	k, B := 3, 2048
 	if c.Thorough() {
-		k, B = 4, 4096
+		k, B = 5, 4096
 	}
 	ctxs, names := c14CtxMap(k)
 	fams := append(append([]string{}, names...), c14Scalar...)
